@@ -215,7 +215,7 @@ Proof.
 Qed.
 
 (** the strict query sentence holds when RemoveFrom works setting by setting
-    (fixes/C15-F6.diff), and before that outside C15-F6 *)
+    (since 5270ed2), and before that outside C15-F6 *)
 Lemma query_clause_holds m names q :
   qf1 m = true -> (qf6 m = true \/
     (negb (is_nil names) && negb (is_empty q) && negb (snd (parse_query q)) &&
@@ -474,7 +474,7 @@ Proof.
 Qed.
 
 (** THE WHOLE STATEMENT.  [fx]: a tree with the repairs of C08-F2, C13-F3, C15-F1
-    and C15-F4 (all in /repo) and possibly those of C15-F6 / C15-F7.  For every
+    and C15-F4 and — as in /repo — possibly those of C15-F6 / C15-F7.  For every
     request, pipeline output and rule on which none of the open findings shows,
     what is forwarded — or that nothing is — satisfies every sentence of the
     property.  (C15-F8 concerns the tracing instrumentation, which is outside the
@@ -565,7 +565,7 @@ Proof.
     destruct G7 as [G7|G7]; [left | right]; exact G7.
 Qed.
 
-(** the tree as it is now, and with the two repair candidates *)
+(** the tree before 5270ed2 / f228b67, and /repo as it is *)
 Corollary spec_holds_repaired q pl r :
   oracle_ok q = true ->
   guard_F2 q = false -> guard_F3 q r = false -> guard_F5 r = false ->
